@@ -484,6 +484,20 @@ class SStr(SV):
     def __iter__(self):
         raise Unsupported('iteration over a symbolic string')
 
+    def _opaque_method(self, name):
+        def method(*a, **kw):
+            # an unmodelled str -> str method: the result is a fresh, unconstrained string (sound over-approximation)
+            return draw_str(f'str.{name}')
+        return method
+
+    def capitalize(self): return self._opaque_method('capitalize')()
+    def lower(self): return self._opaque_method('lower')()
+    def upper(self): return self._opaque_method('upper')()
+    def title(self): return self._opaque_method('title')()
+    def strip(self, *a): return self._opaque_method('strip')()
+    def lstrip(self, *a): return self._opaque_method('lstrip')()
+    def rstrip(self, *a): return self._opaque_method('rstrip')()
+
     def __str__(self):
         raise Unsupported('str() of a symbolic string passed to native code')
 
